@@ -265,6 +265,30 @@ impl Run {
         self.known_hits.push(what.to_string());
     }
 
+    /// Evaluate the committed canary inputs of this property's findings (known_findings.json).
+    /// known + still failing -> KNOWN-FINDING line (exit code unaffected); fixed + failing -> the
+    /// defect has returned: VIOLATION with the canary as replay file. Nothing is ever added to the
+    /// findings file at run time.
+    pub fn canaries(&mut self, eval: &mut dyn FnMut(&Value) -> Result<(), String>) {
+        for f in load_findings(self.property) {
+            let Some(c) = &f.canary else { continue };
+            let path = Path::new(VERIF_DIR).join(c);
+            let v = read_json(&path.to_string_lossy());
+            let r = eval(&v);
+            match (f.status.as_str(), r) {
+                ("known", Err(_)) => self.known(&format!("{} {}", f.id, f.what)),
+                ("known", Ok(())) => println!("note: known finding {} ({}) no longer reproduces on this tree", f.id, f.what),
+                (_, Err(m)) => {
+                    let p = path.to_string_lossy().to_string();
+                    println!("VIOLATION property={} replay={}", self.property, p);
+                    println!("  regression of fixed finding {}: {}", f.id, m.lines().next().unwrap_or(""));
+                    self.violations.push((p, m));
+                }
+                (_, Ok(())) => {}
+            }
+        }
+    }
+
     pub fn finish(&self, stats: &Stats) -> ! {
         let mut coverage = json!({
             "evaluations": stats.evaluations,
